@@ -28,7 +28,7 @@ def schema (j : Json) : Schema :=
     types := (arr j "types").map fun t =>
       { name := str t "name", kind := kind (str t "kind"),
         fields := (arr t "fields").map fun f =>
-          { name := str f "name", dirs := strs f "dirs",
+          { name := str f "name", dirs := strs f "dirs", plain := boolD f "plain" false,
             type := match f.getObjVal? "type" with | .ok ty => tref ty | _ => .named "?" false },
         interfaces := strs t "interfaces", possible := strs t "possible",
         implementors := strs t "implementors" } }
@@ -72,8 +72,28 @@ partial def vOf (j : Json) : V :=
   | "list" => .list ((arr j "l").map vOf)
   | _ => .null
 
+/-- (object path, plain field values) of every object inside a logged resolver value -/
+partial def plainObjs (path : String) (j : Json) : List (String × List (String × V)) :=
+  match str j "k" with
+  | "obj" =>
+    let fs := match j.getObjVal? "fields" with
+      | .ok (.obj kvs) => kvs.toList.map fun (k, v) => (k, vOf v)
+      | _ => []
+    [(path, fs)]
+  | "list" =>
+    let rec go (i : Nat) (xs : List Json) : List (String × List (String × V)) :=
+      match xs with
+      | [] => []
+      | x :: rest => plainObjs (if path == "" then toString i else path ++ "/" ++ toString i) x ++ go (i + 1) rest
+    go 0 (arr j "l")
+  | _ => []
+
 /-- the oracle the implementation's invocation log defines -/
 def oracle (log : List Json) : Oracle :=
+  let objs : List (String × List (String × V)) := (log.filter fun i => str i "hook" == "resolver").flatMap fun i =>
+    match i.getObjVal? "val" with
+    | .ok v => plainObjs (str i "path") v
+    | _ => []
   let res := log.filter fun i => str i "hook" == "resolver"
   let dirs := log.filter fun i => (str i "hook").startsWith "directive:"
   { res := fun path =>
@@ -94,7 +114,14 @@ def oracle (log : List Json) : Oracle :=
         | "error" => .err (str i "msg")
         | "panic" => .panic (str i "msg")
         | "block" => .block
-        | _ => .pass }
+        | _ => .pass
+    plain := fun objPath name =>
+      match objs.find? (fun e => e.1 == pathStr objPath) with
+      | none => .missing
+      | some (_, fs) =>
+        match fs.find? (fun kv => kv.1 == name) with
+        | some (_, v) => .val v
+        | none => .missing }
 
 partial def render : Out → String
   | .null => "null"
